@@ -85,6 +85,96 @@ func CatInit(table, op, i int, seed int64, allD bool) *InitSpec {
 	return is
 }
 
+// vol1: single Steps on a memory with read-sensitive registers (every address >= base: the first read returns what
+// is stored, every later read of the same address something else; writes do not stick); pointers aimed into it.  An
+// operand that is read twice, re-read after the write-back, or an opcode byte that is fetched again, yields a
+// different result.  base = C000h (data only) or 0 (the program bytes too).
+func volWanted(only string, table, op int) bool {
+	switch only {
+	case "all":
+		return true
+	case "alu": // the 8-bit ALU / rotate / bit families
+		switch table {
+		case 0, 3, 4:
+			return (op < 0x40 && (op&7 == 4 || op&7 == 5 || op&7 == 7)) || (op >= 0x80 && op < 0xc0) || (op >= 0xc0 && op&7 == 6)
+		case 2:
+			return (op >= 0x40 && op < 0x80 && op&7 == 4) || op == 0x67 || op == 0x6f
+		}
+		return true // CB, DDCB, FDCB
+	case "a16": // 16-bit arithmetic
+		switch table {
+		case 0, 3, 4:
+			return op < 0x40 && (op&15 == 9 || op&15 == 3 || op&15 == 11)
+		case 2:
+			return op >= 0x40 && op < 0x80 && (op&15 == 2 || op&15 == 10)
+		}
+		return false
+	}
+	panic("vol1 -only " + only)
+}
+
+func cmdVol1(args []string) {
+	fs := flag.NewFlagSet("vol1", flag.ExitOnError)
+	out := fs.String("out", "", "output directory")
+	shards := fs.Int("shards", 16, "shards")
+	n := fs.Int("n", 2, "Steps per decode point")
+	only := fs.String("only", "all", "all | alu | a16")
+	seed := fs.Int64("seed", 1, "seed")
+	fs.Parse(args)
+	var dps []int
+	for dp := 0; dp < NTables*256; dp++ {
+		if volWanted(*only, dp/256, dp%256) {
+			dps = append(dps, dp)
+		}
+	}
+	for sh := 0; sh < *shards; sh++ {
+		r := rand.New(rand.NewSource(*seed*6151 + int64(sh)))
+		f, w := openShard(*out, sh)
+		for k := sh; k < len(dps)**n; k += *shards {
+			dp, i := dps[k / *n], k % *n
+			is := RandInit(r, dp/256, dp%256)
+			is.Pend = []int{}
+			is.Dev = DevDesc{Kind: "volatile", Seed: r.Intn(1000), Len: 65536, Val: 0xc000}
+			if i%2 == 1 {
+				is.Dev.Val = 0 // the program bytes too are read-once
+			}
+			old := is.R[21]
+			pc := 0x0100 + r.Intn(0x7000)
+			is.R[21] = pc
+			var cells [][2]int
+			for _, c := range is.Cells {
+				if d := (c[0] - old) & 0xffff; d < 8 {
+					cells = append(cells, [2]int{pc + int(d), c[1]})
+				}
+			}
+			dev := func() int { return 0xc080 + r.Intn(0x3f00) }
+			v := dev()
+			is.R[6], is.R[7] = v>>8, v&255 // HL
+			v = dev()
+			is.R[16], is.R[17] = v>>8, v&255 // IX
+			v = dev()
+			is.R[18], is.R[19] = v>>8, v&255 // IY
+			if r.Intn(2) == 0 {
+				v = dev()
+				is.R[2], is.R[3] = v>>8, v&255
+				v = dev()
+				is.R[4], is.R[5] = v>>8, v&255
+			}
+			if r.Intn(3) == 0 {
+				is.R[20] = dev()
+			}
+			is.Cells = dedupe(cells)
+			m := NewMachine(is)
+			EmitInit(w, is)
+			if !safeStep(m, w) {
+				continue
+			}
+		}
+		w.Flush()
+		f.Close()
+	}
+}
+
 func cmdCat1(args []string) {
 	fs := flag.NewFlagSet("cat1", flag.ExitOnError)
 	out := fs.String("out", "", "output directory")
